@@ -24,7 +24,7 @@ POOL = [
     "y ~ C(k)", "y ~ o", "y ~ C(o)", "y ~ o:x", "y ~ scale(center(x)) + poly(scale(z), 2)", "y ~ (1|g)", "y ~ (x|g)", "y ~ (f|g)",
     "y ~ (0 + f|g)", "y ~ (scale(x)|g)", "y ~ x + (x|g:h)", "y ~ (1|C(k))", "y ~ (center(x) + f|g) + (1|h)", "o ~ x + f",
     "f ~ scale(x)", "o[a] ~ x", "binary(f, 'b') ~ x", "y ~ binary(f) + x", "y ~ f + g + f:g:x", "y ~ bs(x, df=5, intercept=True):g",
-    "y ~ minmax(x) + (minmax(z)|g)", "y ~ I(f)", "y ~ 0 + up(f):x", "y ~ x + (x|up(g))", "y ~ (0 + I(f)|g)",
+    "y ~ minmax(x) + (minmax(z)|g)", "y ~ I(np.log(x) * z)", "y ~ {center(x) + z}", "y ~ {x / np.sqrt(z)}", "y ~ scale(np.log(x) + z) + I(z - np.exp(x / 10))", "y ~ I(f)", "y ~ 0 + up(f):x", "y ~ x + (x|up(g))", "y ~ (0 + I(f)|g)",
 ]
 FIVE = [0, 1, 2, 3, 5]  # rows of c06.frame: all levels of f (b, c, a), both of g
 
